@@ -297,7 +297,13 @@ class sequence_variables:
             pass
         r = []
         while end < l_:
+            current = end
             start, end, spam = opt(end + 1 - overlap, 0, sz, orphan, sequence)
+            if end <= current:
+                # overlap >= size: the batches do not move towards the
+                # end of the sequence, so there is none to list
+                # (and no end to listing them)
+                break
             v = sequence_variables(self.items, self.query_string,
                                    self.start_name_re)
             d = v.data
